@@ -6,7 +6,7 @@ import re
 from ..src import walk, calls, call_name, loc, unparse, AnchorError, ExtractError, last_attr
 from ..symx import SymExec, Opaque, State
 from ..peval import Evaluator, Lin, Obj, Unknown
-from ..inpx import Conv, IO, UTIL, find_convs, discriminators, placeholders, module_string, make_hook
+from ..inpx import Conv, IO, UTIL, find_convs, discriminators, placeholders, make_hook
 
 EXPLANATION = (
     "Cross-checking the sibling implementations InpFile._write_X / _read_X: every to_si/from_si site is followed through the abstract "
@@ -86,6 +86,106 @@ def pclass(classes, param):
     return classes.get(PARAM_ALIAS.get(param, param))
 
 
+# ------------------------------------------------------------------ module-level format templates
+def module_string(repo, name, depth=0):
+    """text of a module-level string constant of io.py, folding the ways such a template is assembled from other constants:
+    'a' + B, 'a' * 3, '%s' % B, 'x{}'.format(B), f'...{B}...' (B another module-level constant, string or number) -- None if it is not one"""
+    def fold(e, d):
+        if d > 8:
+            return None
+        if isinstance(e, ast.Constant) and isinstance(e.value, (str, int, float)) and not isinstance(e.value, bool):
+            return e.value
+        if isinstance(e, ast.Name):
+            try:
+                return fold(repo.module_assign(IO, e.id), d + 1)
+            except AnchorError:
+                return None
+        if isinstance(e, ast.BinOp):
+            a, b = fold(e.left, d + 1), (tuple(fold(x, d + 1) for x in e.right.elts) if isinstance(e.right, ast.Tuple) else fold(e.right, d + 1))
+            if a is None or b is None or (isinstance(b, tuple) and None in b):
+                return None
+            try:
+                if isinstance(e.op, ast.Add):
+                    return a + b
+                if isinstance(e.op, ast.Mult):
+                    return a * b
+                if isinstance(e.op, ast.Mod) and isinstance(a, str):
+                    return a % b
+            except TypeError:
+                return None
+            return None
+        if isinstance(e, ast.JoinedStr):
+            out = ""
+            for part in e.values:
+                if isinstance(part, ast.Constant):
+                    out += str(part.value)
+                elif isinstance(part, ast.FormattedValue) and part.format_spec is None and part.conversion == -1:
+                    v = fold(part.value, d + 1)
+                    if v is None:
+                        return None
+                    out += str(v)
+                else:
+                    return None
+            return out
+        if isinstance(e, ast.Call) and isinstance(e.func, ast.Attribute) and e.func.attr == "format" and not any(k.arg is None for k in e.keywords):
+            base, args, kw = fold(e.func.value, d + 1), [fold(a, d + 1) for a in e.args], {k.arg: fold(k.value, d + 1) for k in e.keywords}
+            if isinstance(base, str) and None not in args and None not in kw.values():
+                try:
+                    return base.format(*args, **kw)
+                except (IndexError, KeyError, ValueError):
+                    return None
+        return None
+    try:
+        v = fold(repo.module_assign(IO, name), depth)
+    except AnchorError:
+        return None
+    return v if isinstance(v, str) else None
+
+
+def format_specs(fmt):
+    """placeholder (name or auto / explicit index) -> format spec text"""
+    import string
+    out, auto = {}, 0
+    for lit, field, spec, conv in string.Formatter().parse(fmt):
+        if field is None:
+            continue
+        field = re.split(r"[.\[]", field)[0]
+        if field == "":
+            k, auto = auto, auto + 1
+        elif field.isdigit():
+            k = int(field)
+        else:
+            k = field
+        out[k] = spec or ""
+    return out
+
+
+PROBES = (1.2345678901234e-4, 0.012345678901234, 1.2345678901234, 30.480000000001, 123.45678901234, 2831.6846592123, 123456.78901234)
+
+
+def digits_kept(spec):
+    """significant decimal digits a format spec keeps for every magnitude a converted quantity takes (worst case over probe values from 1e-4 to
+    1e5): the spec is APPLIED to the probes and the text read back, so width / type / precision are judged by their effect, not by their spelling.
+    A string spec (the value went through str(): shortest repr, exact) or an empty spec keeps everything (17)."""
+    import math
+    worst = 17
+    for v in PROBES:
+        try:
+            txt = format(v, spec)
+        except ValueError:
+            try:
+                txt = format(str(v), spec)
+            except ValueError:
+                return None
+        try:
+            back = float(txt)
+        except ValueError:
+            return None
+        err = abs(back - v) / abs(v)
+        worst = min(worst, 17 if err == 0 else int(math.floor(-math.log10(err))))
+    return worst
+
+
 # ------------------------------------------------------------------ row extraction
 def file_columns(fmt):
     """placeholder (name or auto index) -> whitespace token position in the line; plus literal keyword tokens."""
@@ -115,6 +215,7 @@ def file_columns(fmt):
 class Row(object):
     def __init__(self, section, side, conv, col, clauses, neg, where, sink=None, plain=None):
         self.section, self.side, self.conv, self.col, self.where, self.sink, self.plain = section, side, conv, col, where, sink, plain
+        self.spec = None                   # writer rows: format spec of the placeholder the value is printed with
         self.clauses = frozenset(frozenset(c) for c in clauses)
         self.neg = frozenset(neg)
         self.disc = frozenset(t for c in self.clauses for t in c)
@@ -173,6 +274,10 @@ def writer_rows(repo, section, qual=None):
             if fmt and "{" not in fmt:
                 fmt = module_string(repo, fmt) or fmt
             cols, lits = file_columns(fmt) if fmt and "{" in fmt else (None, set())
+            try:
+                specs = format_specs(fmt) if cols else {}
+            except ValueError:
+                specs = {}
             strs = {a.upper() for a in args if isinstance(a, str) and re.fullmatch(r"[A-Za-z][A-Za-z_\-]*", a)}
             items = [(i, a) for i, a in enumerate(args)] + list(kw.items())
             cl = list(d) + [frozenset([x]) for x in sorted(lits | strs)]
@@ -180,6 +285,9 @@ def writer_rows(repo, section, qual=None):
                 col = cols.get(k) if cols else (k if isinstance(k, int) else None)
                 for c, path in find_convs(v):
                     r = Row(section, "w", c, col, cl, neg, loc(IO, fn) + ":%d" % c.lineno)
+                    r.spec = specs.get(k)
+                    if r.key() in rows and rows[r.key()].spec != r.spec:
+                        r.spec_also = (getattr(rows[r.key()], "spec_also", ()) + (rows[r.key()].spec,))
                     rows[r.key()] = r
                 if not list(find_convs(v)) and col is not None and isinstance(v, Opaque) and v.text not in ("<formatted>",) and re.search(r"\.\w+$", v.text):
                     r = Row(section, "w", None, col, cl, neg, loc(IO, fn), plain=v.text)
@@ -232,10 +340,15 @@ class CompExec(SymExec):
                 pieces = re.split(r"(%%|%[-+ #0]*\d*(?:\.\d+)?[sdifgGeErx])", left)
                 fmt, k = "", 0
                 for pc in pieces:
+                    m = re.fullmatch(r"%([-+ #0]*)(\d*)((?:\.\d+)?)([sdifgGeErx])", pc or "")
                     if pc == "%%":
                         fmt += "%"
-                    elif re.fullmatch(r"%[-+ #0]*\d*(?:\.\d+)?[sdifgGeErx]", pc or ""):
-                        fmt += "{}"
+                    elif m:
+                        fl, width, prec, typ = m.groups()
+                        typ = {"i": "d", "r": "s"}.get(typ, typ)
+                        spec = ("<" if "-" in fl else "") + ("+" if "+" in fl else (" " if " " in fl else "")) + ("#" if "#" in fl else "") \
+                            + ("0" if "0" in fl and "-" not in fl else "") + width + prec + ("" if typ == "s" and not (width or prec) else typ)
+                        fmt += "{" + (":" + spec if spec else "") + "}"
                         k += 1
                     else:
                         fmt += (pc or "").replace("{", "{{").replace("}", "}}")
@@ -589,6 +702,10 @@ def concrete_world(repo, identity_units=True):
     ov, _state = stdlib_overrides()
     ov["sys"] = Namespace("sys", getdefaultencoding=lambda: "utf-8", version_info=(3, 10), platform="linux")
     ov["re"] = _re
+    ov["six"] = Namespace("six", with_metaclass=lambda meta, *bases: (bases[0] if bases else object), string_types=(str,), PY3=True, PY2=False)
+    import operator as _op
+    for nm, f_ in (("equal", _op.eq), ("not_equal", _op.ne), ("greater", _op.gt), ("greater_equal", _op.ge), ("less", _op.lt), ("less_equal", _op.le)):
+        setattr(ov["numpy"], nm, f_)
     if identity_units:
         ov["wntr.epanet.util.from_si"] = lambda fu, v, p, *a, **k: v
         ov["wntr.epanet.util.to_si"] = lambda fu, v, p, *a, **k: v
@@ -637,6 +754,44 @@ def concrete_times_round_trip(repo, world, values):
     except ProgramError as e:
         return text, "raises: %s" % e
     return text, dict(back.__dict__)
+
+
+def concrete_read_times(world, lines):
+    """InpFile._read_times run on the given [TIMES] lines with empty mock options -> {option: value read} or 'raises: ...'"""
+    from ..concrete import ProgramError
+    back = _Mock()
+    try:
+        r = world.interp.call(world.function(IO, "InpFile"), [], {})
+        world.interp.setattr_(r, "wn", _Mock(options=_Mock(time=back)))
+        world.interp.setattr_(r, "sections", {"[TIMES]": [(i + 1, l) for i, l in enumerate(lines)]})
+        world.interp.call(world.interp.getattr_(r, "_read_times"), [], {})
+    except ProgramError as e:
+        return "raises: %s" % e
+    return dict(back.__dict__)
+
+
+def concrete_condition_threshold(world, clsname, text):
+    """the threshold (seconds) a time condition of controls.py holds after being constructed from the text of a rule clause -- its __init__ is run"""
+    from ..concrete import ProgramError
+    try:
+        o = world.interp.call(world.function("wntr/network/controls.py", clsname), [None, None, text], {})
+        return world.interp.getattr_(o, "_threshold")
+    except ProgramError as e:
+        return "raises: %s" % e
+
+
+def concrete_sim_steps(world, hydraulic, pattern, report):
+    """(hydraulic step, report step) WNTRSimulator._setup_sim_options settles on for the given time options (run on an uninitialised instance)"""
+    from ..concrete import ProgramError, Instance
+    CORE = "wntr/sim/core.py"
+    sim = Instance(world.function(CORE, "WNTRSimulator"))
+    sim._wn = _Mock(options=_Mock(time=_Mock(hydraulic_timestep=hydraulic, pattern_timestep=pattern, report_timestep=report)))
+    sim._model = None
+    try:
+        world.interp.call(world.interp.getattr_(sim, "_setup_sim_options"), ["solver", None, None, None, False], {})
+        return world.interp.getattr_(sim, "_hydraulic_timestep"), world.interp.getattr_(sim, "_report_timestep")
+    except ProgramError as e:
+        return "raises: %s" % e, None
 
 
 def concrete_time_control_round_trip(repo, instants):
@@ -811,6 +966,39 @@ def run(repo, chk):
         if r is not None and (ctype, pt) not in wcur:
             chk.bad("R-C12-2", "[CURVES] %s curve %s: the writer converts what the reader converts" % (ctype, pt), "%s:%d" % (IO, r.lineno), found="reader %r, writer unconverted" % r)
     chk.expect(len(wcur) >= 7, "R-C12-2", "curve conversions located for VOLUME, HEAD, EFFICIENCY, HEADLOSS", loc(wf), found=sorted(wcur))
+
+    # ---------------------------------------------------------------- R-C12-13 the element tables and the curves keep the same digits
+    # A tank's maximum level and the last point of its volume curve, a pump's design point and its curve ... are the same model number
+    # printed in two sections; EPANET cross-checks them (error 225).  Every unit-converted number of the element sections and of [CURVES]
+    # must therefore survive formatting with the digits its siblings keep.  The spec of each placeholder is applied to probe values.
+    fields = []
+    for sec in ("junctions", "reservoirs", "tanks", "pipes", "pumps", "valves"):
+        fields += [w for w in allrows[sec][0] if w.conv is not None and w.spec is not None]
+    fields += [w for w in W if w.conv is not None and w.spec is not None]          # W: the [CURVES] writer rows
+    kept = {}
+    for w in fields:
+        for sp in (w.spec,) + tuple(x for x in getattr(w, "spec_also", ()) if x is not None):
+            dg = digits_kept(sp)
+            if dg is None:
+                raise ExtractError("format spec %r of [%s] column %s cannot be applied to a number" % (sp, w.section.upper(), w.col))
+            key = (w.section, w.col if w.col is not None else "/".join(sorted(w.disc)))
+            if key not in kept or dg < kept[key][0]:
+                kept[key] = (dg, sp, w)
+    if len(kept) < 15:
+        raise ExtractError("only %d formatted unit-converted fields found in the element and curve writers" % len(kept))
+    counts = {}
+    for dg, sp, w in kept.values():
+        counts[dg] = counts.get(dg, 0) + 1
+    required = min(10, max(counts, key=lambda d_: (counts[d_], d_)))
+    for (sec, col), (dg, sp, w) in sorted(kept.items(), key=str):
+        chk.expect(dg >= required, "R-C12-13", "[%s] column %s: the unit-converted number keeps the significant digits its siblings keep" % (sec.upper(), col), w.where,
+                   "numbers that are the same in the model (tank level / volume-curve point, ...) must not come out different after conversion and formatting; "
+                   "the format spec is applied to values from 1e-4 to 1e5 and the text read back", expected=">= %d significant digits" % required,
+                   found="spec %r keeps %d (%s)" % (sp, dg, w.conv.param))
+    chk.floor("R-C12-13", 15)
+    low = sorted({(r_.section, r_.spec, digits_kept(r_.spec)) for sec_ in SECTIONS for r_ in allrows[sec_][0] if r_.conv is not None and r_.spec and (digits_kept(r_.spec) or 0) < required and (r_.section, r_.col) not in kept})
+    if low:
+        chk.note("unit-converted fields outside the element / curve tables written with fewer digits (inventoried, not decided): %s" % low)
 
     # ---------------------------------------------------------------- R-C12-3 discriminators
     # the reader's discriminant column is the column the writer prints the discriminator in
@@ -1212,6 +1400,50 @@ def run(repo, chk):
     chk.expect(not diffs, "R-C12-7", "[TIMES] duration, time steps, pattern / report start and statistic read back as written", loc(wtf),
                expected={k: v[0] for k, v in diffs.items()}, found={k: v[1] for k, v in diffs.items()})
 
+    # ---------------------------------------------------------------- R-C12-14 [TIMES] values with a units word (EPANET: SECONDS(SEC), MINUTES(MIN), HOURS, DAYS; hours when omitted)
+    # _read_times is RUN on one line per option and spelling; files written by EPANET / other tools use these forms, and a model read from
+    # them must be the model they describe before it can be written back
+    TIME_FORMS = (("30 MIN", 1800), ("90 SEC", 90), ("2 HOURS", 7200), ("1 DAY", 86400), ("1.5", 5400), ("1:30", 5400), ("45 MINUTES", 2700), ("120 SECONDS", 120))
+    for label, attr in (("DURATION", "duration"), ("HYDRAULIC TIMESTEP", "hydraulic_timestep"), ("QUALITY TIMESTEP", "quality_timestep"), ("PATTERN TIMESTEP", "pattern_timestep"),
+                        ("PATTERN START", "pattern_start"), ("REPORT TIMESTEP", "report_timestep"), ("REPORT START", "report_start"), ("RULE TIMESTEP", "rule_timestep")):
+        wrong = []
+        for txt, want in TIME_FORMS:
+            got = concrete_read_times(world, ["%s %s" % (label, txt)])
+            got = got.get(attr, "(option not set)") if isinstance(got, dict) else got
+            if got != want:
+                wrong.append(("%s %s" % (label, txt), want, got))
+        chk.expect(not wrong, "R-C12-14", "[TIMES] %s is read in the units the line names (seconds, minutes, hours, days; hours by default; H:MM)" % label, loc(rdf),
+                   "InpFile._read_times run (concrete evaluation) on `<option> 30 MIN`, `90 SEC`, `2 HOURS`, `1 DAY`, `1.5`, `1:30`, ...",
+                   expected=[(l, w_) for l, w_, g in wrong[:3]], found=[(l, g) for l, w_, g in wrong[:3]])
+    chk.floor("R-C12-14", 8)
+
+    # ---------------------------------------------------------------- R-C12-15 rule clause times in every spelling the INP grammar has
+    # `IF SYSTEM CLOCKTIME >= 8 AM` (the EPANET manual's own example), `8:00 AM`, `14:00`, decimal hours: the condition's constructor is RUN
+    CLOCK_FORMS = (("8 AM", 28800), ("6 PM", 64800), ("12 AM", 0), ("12 PM", 43200), ("8:00 AM", 28800), ("8:30 PM", 73800), ("14:00", 50400), ("6", 21600), ("6.5", 23400),
+                   ("8 am", 28800), ("11:59:59 PM", 86399))
+    for clsname in ("TimeOfDayCondition", "SimTimeCondition"):
+        cf = repo.func("wntr/network/controls.py", clsname + ".__init__")
+        chk.fn(cf)
+        wrong = []
+        for txt, want in CLOCK_FORMS:
+            got = concrete_condition_threshold(world, clsname, txt)
+            if isinstance(got, str) or got != want:
+                wrong.append((txt, want, got))
+        chk.expect(not wrong, "R-C12-15", "%s accepts a rule clause time as `H AM/PM`, `H:MM[:SS] [AM/PM]` or decimal hours and holds it in seconds" % clsname, loc(cf),
+                   "the constructor is run (concrete evaluation) on '8 AM', '6 PM', '12 AM', '12 PM', '8:00 AM', '8:30 PM', '14:00', '6', '6.5'",
+                   expected=[(t, w_) for t, w_, g in wrong[:3]], found=[(t, g) for t, w_, g in wrong[:3]])
+
+    # ---------------------------------------------------------------- R-C12-16 the time steps the simulator settles on (clause of C03 decided with this module's
+    # time-option machinery): as EPANET, the hydraulic step is shortened to the pattern step and to the report step, so that no pattern period is skipped
+    sso = repo.func("wntr/sim/core.py", "WNTRSimulator._setup_sim_options")
+    chk.fn(sso)
+    for hyd, pat, rep in ((3600, 1800, 3600), (3600, 3600, 3600), (1800, 3600, 3600), (3600, 900, 1800), (3600, 1800, "ALL"), (900, 3600, 3600)):
+        want = min([hyd, pat] + ([rep] if not isinstance(rep, str) else []))
+        got, rep_got = concrete_sim_steps(world, hyd, pat, rep)
+        chk.expect(got == want, "R-C12-16", "hydraulic %s s, pattern %s s, report %s: the simulator's hydraulic step is the shortest of them" % (hyd, pat, rep), loc(sso),
+                   "WNTRSimulator._setup_sim_options run (concrete evaluation) on mock time options; EPANET never lets a hydraulic step skip a pattern period",
+                   expected=want, found=got)
+
 
 WITNESSES = [
     dict(name="mass-units-only-from-previous-read", file=IO, old="        if isinstance(quality_units, str) and quality_units.split('/')[0] in ('mg', 'ug'):\n            self.mass_units = MassUnits[quality_units.split('/')[0]]\n        elif self.mass_units is None:",
@@ -1234,7 +1466,7 @@ WITNESSES = [
     dict(name="length-vs-head-preserving", file=IO, old="                        to_si(self.flow_units, float(current[2]), HydParam.Length),\n                        to_si(self.flow_units, float(current[3]), HydParam.Length),", new="                        to_si(self.flow_units, float(current[2]), HydParam.HydraulicHead),\n                        to_si(self.flow_units, float(current[3]), HydParam.Elevation),", silent=True),
     # --- behaviour-preserving rewrites the rules must stay quiet on (shape tolerance, one per kind of refactoring) and further mutations that
     #     must fire; generated from the current source text, every `old` occurs exactly once
-    dict(name='silent-rule-else-loop-as-helper-and-comprehension', file=IO, old="        else_acts = []\n        for act in self._else_clauses:\n            words = act.strip().split()\n            if len(words) < 6:\n                # TODO: raise error\n                pass\n            link = model.get_link(words[2])\n            attr = words[3].lower()\n            value = ValueCondition._parse_value(words[5])\n            if attr.lower() in ['demand']:\n                value = to_si(self.inp_units, value, HydParam.Demand)\n            elif attr.lower() in ['head', 'level']:\n                value = to_si(self.inp_units, value, HydParam.HydraulicHead)\n            elif attr.lower() in ['flow']:\n                value = to_si(self.inp_units, value, HydParam.Flow)\n            elif attr.lower() in ['pressure']:\n                value = to_si(self.inp_units, value, HydParam.Pressure)\n            elif attr.lower() in ['setting']:\n                if isinstance(link, Valve):\n                    if link.valve_type.upper() in ['PRV', 'PBV', 'PSV']:\n                        value = to_si(self.inp_units, value, HydParam.Pressure)\n                    elif link.valve_type.upper() in ['FCV']:\n                        value = to_si(self.inp_units, value, HydParam.Flow)\n            else_acts.append(ControlAction(link, attr, value))\n", new='        else_acts = [self._parse_action_clause(model, act) for act in self._else_clauses]\n', also=[('    def generate_control(self, model):\n', "    def _parse_action_clause(self, model, act):\n        words = act.strip().split()\n        if len(words) < 6:\n            # TODO: raise error\n            pass\n        link = model.get_link(words[2])\n        attr = words[3].lower()\n        value = ValueCondition._parse_value(words[5])\n        if attr.lower() in ['demand']:\n            value = to_si(self.inp_units, value, HydParam.Demand)\n        elif attr.lower() in ['head', 'level']:\n            value = to_si(self.inp_units, value, HydParam.HydraulicHead)\n        elif attr.lower() in ['flow']:\n            value = to_si(self.inp_units, value, HydParam.Flow)\n        elif attr.lower() in ['pressure']:\n            value = to_si(self.inp_units, value, HydParam.Pressure)\n        elif attr.lower() in ['setting']:\n            if isinstance(link, Valve):\n                if link.valve_type.upper() in ['PRV', 'PBV', 'PSV']:\n                    value = to_si(self.inp_units, value, HydParam.Pressure)\n                elif link.valve_type.upper() in ['FCV']:\n                    value = to_si(self.inp_units, value, HydParam.Flow)\n        return ControlAction(link, attr, value)\n\n    def generate_control(self, model):\n")], silent=True),
+    dict(name='silent-rule-else-loop-as-helper-and-comprehension', file=IO, old="        else_acts = []\n        for act in self._else_clauses:\n            words = act.strip().split()\n            if len(words) < 6:\n                # TODO: raise error\n                pass\n            if words[1].upper() in ('NODE', 'JUNCTION', 'TANK', 'RESERVOIR'):\n                # a leak action targets a node (as in _read_control_line)\n                link = model.get_node(words[2])\n            else:\n                link = model.get_link(words[2])\n            attr = words[3].lower()\n            if attr == 'leak_status':\n                value = words[5].upper() == 'TRUE'\n            else:\n                value = ValueCondition._parse_value(words[5])\n            if attr.lower() in ['demand']:\n                value = to_si(self.inp_units, value, HydParam.Demand)\n            elif attr.lower() in ['head', 'level']:\n                value = to_si(self.inp_units, value, HydParam.HydraulicHead)\n            elif attr.lower() in ['flow']:\n                value = to_si(self.inp_units, value, HydParam.Flow)\n            elif attr.lower() in ['pressure']:\n                value = to_si(self.inp_units, value, HydParam.Pressure)\n            elif attr.lower() in ['setting']:\n                if isinstance(link, Valve):\n                    if link.valve_type.upper() in ['PRV', 'PBV', 'PSV']:\n                        value = to_si(self.inp_units, value, HydParam.Pressure)\n                    elif link.valve_type.upper() in ['FCV']:\n                        value = to_si(self.inp_units, value, HydParam.Flow)\n            else_acts.append(ControlAction(link, attr, value))\n", new='        else_acts = [self._parse_action_clause(model, act) for act in self._else_clauses]\n', also=[('    def generate_control(self, model):\n', "    def _parse_action_clause(self, model, act):\n        words = act.strip().split()\n        if len(words) < 6:\n            # TODO: raise error\n            pass\n        if words[1].upper() in ('NODE', 'JUNCTION', 'TANK', 'RESERVOIR'):\n            # a leak action targets a node (as in _read_control_line)\n            link = model.get_node(words[2])\n        else:\n            link = model.get_link(words[2])\n        attr = words[3].lower()\n        if attr == 'leak_status':\n            value = words[5].upper() == 'TRUE'\n        else:\n            value = ValueCondition._parse_value(words[5])\n        if attr.lower() in ['demand']:\n            value = to_si(self.inp_units, value, HydParam.Demand)\n        elif attr.lower() in ['head', 'level']:\n            value = to_si(self.inp_units, value, HydParam.HydraulicHead)\n        elif attr.lower() in ['flow']:\n            value = to_si(self.inp_units, value, HydParam.Flow)\n        elif attr.lower() in ['pressure']:\n            value = to_si(self.inp_units, value, HydParam.Pressure)\n        elif attr.lower() in ['setting']:\n            if isinstance(link, Valve):\n                if link.valve_type.upper() in ['PRV', 'PBV', 'PSV']:\n                    value = to_si(self.inp_units, value, HydParam.Pressure)\n                elif link.valve_type.upper() in ['FCV']:\n                    value = to_si(self.inp_units, value, HydParam.Flow)\n        return ControlAction(link, attr, value)\n\n    def generate_control(self, model):\n")], silent=True),
     dict(name='silent-control-setting-closure-as-method-with-early-returns', file=IO, old="    def _write_controls(self, f, wn):\n        def get_setting(control_action, control_name):\n            value = control_action._value\n            attribute = control_action._attribute.lower()\n            if attribute == 'status':\n                setting = LinkStatus(value).name\n            elif attribute == 'base_speed':\n                setting = str(value)\n            elif attribute == 'setting' and isinstance(control_action._target_obj, Valve):\n                valve = control_action._target_obj\n                valve_type = valve.valve_type\n                if valve_type == 'PRV' or valve_type == 'PSV' or valve_type == 'PBV':\n                    setting = str(from_si(self.flow_units, value, HydParam.Pressure))\n                elif valve_type == 'FCV':\n                    setting = str(from_si(self.flow_units, value, HydParam.Flow))\n                elif valve_type == 'TCV':\n                    setting = str(value)\n                elif valve_type == 'GPV':\n                    setting = value\n                else:\n                    raise ValueError('Valve type not recognized' + str(valve_type))\n            elif attribute == 'setting':\n                setting = value\n            else:\n                setting = None\n                logger.warning('Could not write control '+str(control_name)+' - skipping')\n\n            return setting\n\n", new="    def _control_setting(self, control_action, control_name):\n        value = control_action._value\n        attribute = control_action._attribute.lower()\n        if attribute == 'status':\n            return LinkStatus(value).name\n        if attribute == 'base_speed':\n            return str(value)\n        if attribute == 'setting' and isinstance(control_action._target_obj, Valve):\n            valve_type = control_action._target_obj.valve_type\n            if valve_type in ('PRV', 'PSV', 'PBV'):\n                return str(from_si(self.flow_units, value, HydParam.Pressure))\n            if valve_type == 'FCV':\n                return str(from_si(self.flow_units, value, HydParam.Flow))\n            if valve_type == 'TCV':\n                return str(value)\n            if valve_type == 'GPV':\n                return value\n            raise ValueError('Valve type not recognized' + str(valve_type))\n        if attribute == 'setting':\n            return value\n        logger.warning('Could not write control '+str(control_name)+' - skipping')\n        return None\n\n    def _write_controls(self, f, wn):\n", also=[("                            'setting': get_setting(control_action, text),\n                            'compare': 'TIME',", "                            'setting': self._control_setting(control_action, text),\n                            'compare': 'TIME',"), ("                            'setting': get_setting(control_action, text),\n                            'ntype':", "                            'setting': self._control_setting(control_action, text),\n                            'ntype':")], silent=True),
     dict(name='silent-sec-to-clock-shared-static-split-helper', file='wntr/network/controls.py', old='    @classmethod\n    def _sec_to_clock(cls, value):\n        sec = float(value)\n        hours = int(sec/3600.)\n        sec -= hours*3600\n        mm = int(sec/60.)\n        sec -= mm*60\n        if hours >= 12:', new='    @staticmethod\n    def _split_hms(sec):\n        hours = int(sec/3600.)\n        sec -= hours*3600\n        mm = int(sec/60.)\n        sec -= mm*60\n        return hours, mm, sec\n\n    @classmethod\n    def _sec_to_clock(cls, value):\n        hours, mm, sec = cls._split_hms(float(value))\n        if hours >= 12:', silent=True),
     dict(name='silent-reader-token-variable-renamed', file=IO, old="    def _read_emitters(self):\n        for lnum, line in self.sections['[EMITTERS]']: # Private attribute on junctions\n            line = line.split(';')[0]\n            current = line.split()\n            if current == []:\n                continue\n            junction = self.wn.get_node(current[0])\n            junction.emitter_coefficient = to_si(self.flow_units, float(current[1]), HydParam.EmitterCoeff)\n\n", new="    def _read_emitters(self):\n        for lnum, line in self.sections['[EMITTERS]']: # Private attribute on junctions\n            line = line.split(';')[0]\n            tokens = line.split()\n            if tokens == []:\n                continue\n            junction = self.wn.get_node(tokens[0])\n            junction.emitter_coefficient = to_si(self.flow_units, float(tokens[1]), HydParam.EmitterCoeff)\n\n", silent=True),
@@ -1281,5 +1513,16 @@ WITNESSES = [
     dict(name='silent-order-line-percent-formatting', file=IO, old="        f.write(entry_int.format('ORDER', 'BULK', int(wn.options.reaction.bulk_order)).encode(sys_default_enc))", new="        f.write((' %s %s %d\\n' % ('ORDER', 'BULK', int(wn.options.reaction.bulk_order))).encode(sys_default_enc))", silent=True),
     dict(name='silent-read-sections-dispatched-from-a-name-table', file=IO, old='            self._read_mixing()\n            self._read_report()\n            self._read_vertices()\n            self._read_labels()\n', new="            for section in ('mixing', 'report', 'vertices', 'labels'):\n                getattr(self, '_read_' + section)()\n", silent=True),
     dict(name='mixing-section-no-longer-read', file=IO, old='            self._read_mixing()\n            self._read_report()\n', new='            self._read_report()\n', rule='R-C12-1'),
-    dict(name='silent-rule-then-clause-unpacked-tokens-param-selected-then-converted', file=IO, old="            link = model.get_link(words[2])\n            attr = words[3].lower()\n            value = ValueCondition._parse_value(words[5])\n            if attr.lower() in ['demand']:\n                value = to_si(self.inp_units, value, HydParam.Demand)\n            elif attr.lower() in ['head', 'level']:\n                value = to_si(self.inp_units, value, HydParam.HydraulicHead)\n            elif attr.lower() in ['flow']:\n                value = to_si(self.inp_units, value, HydParam.Flow)\n            elif attr.lower() in ['pressure']:\n                value = to_si(self.inp_units, value, HydParam.Pressure)\n            elif attr.lower() in ['setting']:\n                if isinstance(link, Valve):\n                    if link.valve_type.upper() in ['PRV', 'PBV', 'PSV']:\n                        value = to_si(self.inp_units, value, HydParam.Pressure)\n                    elif link.valve_type.upper() in ['FCV']:\n                        value = to_si(self.inp_units, value, HydParam.Flow)\n            then_acts.append(ControlAction(link, attr, value))", new="            _kw, _typ, link_name, attr_txt, _eq, value_txt = words[:6]\n            link = model.get_link(link_name)\n            attr = attr_txt.lower()\n            raw = ValueCondition._parse_value(value_txt)\n            param = None\n            if attr in ('demand',):\n                param = HydParam.Demand\n            elif attr in ('head', 'level'):\n                param = HydParam.HydraulicHead\n            elif attr == 'flow':\n                param = HydParam.Flow\n            elif attr == 'pressure':\n                param = HydParam.Pressure\n            elif attr == 'setting' and isinstance(link, Valve):\n                vt = link.valve_type.upper()\n                if vt in ('PRV', 'PBV', 'PSV'):\n                    param = HydParam.Pressure\n                elif vt == 'FCV':\n                    param = HydParam.Flow\n            value = raw if param is None else to_si(self.inp_units, raw, param)\n            then_acts.append(ControlAction(link, attr, value))", silent=True),
+    dict(name='silent-rule-then-clause-unpacked-tokens-param-selected-then-converted', file=IO, old="            if words[1].upper() in ('NODE', 'JUNCTION', 'TANK', 'RESERVOIR'):\n                # a leak action targets a node (as in _read_control_line)\n                link = model.get_node(words[2])\n            else:\n                link = model.get_link(words[2])\n            attr = words[3].lower()\n            if attr == 'leak_status':\n                value = words[5].upper() == 'TRUE'\n            else:\n                value = ValueCondition._parse_value(words[5])\n            if attr.lower() in ['demand']:\n                value = to_si(self.inp_units, value, HydParam.Demand)\n            elif attr.lower() in ['head', 'level']:\n                value = to_si(self.inp_units, value, HydParam.HydraulicHead)\n            elif attr.lower() in ['flow']:\n                value = to_si(self.inp_units, value, HydParam.Flow)\n            elif attr.lower() in ['pressure']:\n                value = to_si(self.inp_units, value, HydParam.Pressure)\n            elif attr.lower() in ['setting']:\n                if isinstance(link, Valve):\n                    if link.valve_type.upper() in ['PRV', 'PBV', 'PSV']:\n                        value = to_si(self.inp_units, value, HydParam.Pressure)\n                    elif link.valve_type.upper() in ['FCV']:\n                        value = to_si(self.inp_units, value, HydParam.Flow)\n            then_acts.append(ControlAction(link, attr, value))\n", new="            _kw, target_type, target_name, attr_txt, _eq, value_txt = words[:6]\n            if target_type.upper() in ('NODE', 'JUNCTION', 'TANK', 'RESERVOIR'):\n                link = model.get_node(target_name)\n            else:\n                link = model.get_link(target_name)\n            attr = attr_txt.lower()\n            raw = (value_txt.upper() == 'TRUE') if attr == 'leak_status' else ValueCondition._parse_value(value_txt)\n            param = None\n            if attr in ('demand',):\n                param = HydParam.Demand\n            elif attr in ('head', 'level'):\n                param = HydParam.HydraulicHead\n            elif attr == 'flow':\n                param = HydParam.Flow\n            elif attr == 'pressure':\n                param = HydParam.Pressure\n            elif attr == 'setting' and isinstance(link, Valve):\n                vt = link.valve_type.upper()\n                if vt in ('PRV', 'PBV', 'PSV'):\n                    param = HydParam.Pressure\n                elif vt == 'FCV':\n                    param = HydParam.Flow\n            value = raw if param is None else to_si(self.inp_units, raw, param)\n            then_acts.append(ControlAction(link, attr, value))\n", silent=True),
+    # --- the four repaired reader / writer defects (R-C12-13 .. 16): the repair reverted in memory must fire, an equivalent correct spelling must not
+    dict(name='curve-points-written-with-six-decimals', file=IO, old="_CURVE_ENTRY = ' {name:10s} {x:15.11g} {y:15.11g} {com:>3s}\\n'", new="_CURVE_ENTRY = ' {name:10s} {x:12f} {y:12f} {com:>3s}\\n'", rule='R-C12-13'),
+    dict(name='silent-curve-template-assembled-from-a-shared-number-format', file=IO, old="_CURVE_ENTRY = ' {name:10s} {x:15.11g} {y:15.11g} {com:>3s}\\n'", new="_NUMBER_FORMAT = '15.11g'\n_CURVE_ENTRY = ' {name:10s} {x:' + _NUMBER_FORMAT + '} {y:' + _NUMBER_FORMAT + '} {com:>3s}\\n'", silent=True),
+    dict(name='silent-curve-points-written-with-an-f-string', file=IO, old="                    x = from_si(self.flow_units, point[0], HydParam.Length)\n                    y = from_si(self.flow_units, point[1], HydParam.Volume)\n                    f.write(_CURVE_ENTRY.format(name=curve_name, x=x, y=y, com=';').encode(sys_default_enc))", new='                    x = from_si(self.flow_units, point[0], HydParam.Length)\n                    y = from_si(self.flow_units, point[1], HydParam.Volume)\n                    f.write(f" {curve_name:10s} {x:15.11g} {y:15.11g} {\';\':>3s}\\n".encode(sys_default_enc))', silent=True),
+    dict(name='volume-curve-points-f-string-fixed-point', file=IO, old="                    x = from_si(self.flow_units, point[0], HydParam.Length)\n                    y = from_si(self.flow_units, point[1], HydParam.Volume)\n                    f.write(_CURVE_ENTRY.format(name=curve_name, x=x, y=y, com=';').encode(sys_default_enc))", new='                    x = from_si(self.flow_units, point[0], HydParam.Length)\n                    y = from_si(self.flow_units, point[1], HydParam.Volume)\n                    f.write(f" {curve_name:10s} {x:12.4f} {y:12.4f} {\';\':>3s}\\n".encode(sys_default_enc))', rule='R-C12-13'),
+    dict(name='times-units-word-ignored', file=IO, old='_TIME_UNIT_SECONDS = {\'SEC\': 1.0, \'MIN\': 60.0, \'HOU\': 3600.0, \'DAY\': 86400.0}\n\n\ndef _time_entry_to_sec(words, value_index):\n    """\n    Seconds of a [TIMES] entry: a decimal number followed by an optional units word\n    (SECONDS, MINUTES, HOURS, DAYS; hours when omitted), or an H:MM[:SS] string.\n    """\n    value = words[value_index]\n    if not _is_number(value):\n        return int(_str_time_to_sec(value))\n    factor = 3600.0\n    if len(words) > value_index + 1:\n        factor = _TIME_UNIT_SECONDS.get(words[value_index + 1].upper()[:3], 3600.0)\n    return int(round(float(value) * factor))\n\n\n', new='', also=[('                opts.time.duration = _time_entry_to_sec(current, 1)\n', '                opts.time.duration = int(float(current[1]) * 3600) if _is_number(current[1]) else int(_str_time_to_sec(current[1]))\n'), ('                opts.time.hydraulic_timestep = _time_entry_to_sec(current, 2)\n', '                opts.time.hydraulic_timestep = int(float(current[2]) * 3600) if _is_number(current[2]) else int(_str_time_to_sec(current[2]))\n'), ('                opts.time.quality_timestep = _time_entry_to_sec(current, 2)\n', '                opts.time.quality_timestep = int(float(current[2]) * 3600) if _is_number(current[2]) else int(_str_time_to_sec(current[2]))\n'), ('                setattr(opts.time, key_string.lower(), _time_entry_to_sec(current, 2))\n', '                setattr(opts.time, key_string.lower(), int(float(current[2]) * 3600) if _is_number(current[2]) else int(_str_time_to_sec(current[2])))\n')], rule='R-C12-14'),
+    dict(name='silent-times-units-as-if-chain-on-the-word', file=IO, old='_TIME_UNIT_SECONDS = {\'SEC\': 1.0, \'MIN\': 60.0, \'HOU\': 3600.0, \'DAY\': 86400.0}\n\n\ndef _time_entry_to_sec(words, value_index):\n    """\n    Seconds of a [TIMES] entry: a decimal number followed by an optional units word\n    (SECONDS, MINUTES, HOURS, DAYS; hours when omitted), or an H:MM[:SS] string.\n    """\n    value = words[value_index]\n    if not _is_number(value):\n        return int(_str_time_to_sec(value))\n    factor = 3600.0\n    if len(words) > value_index + 1:\n        factor = _TIME_UNIT_SECONDS.get(words[value_index + 1].upper()[:3], 3600.0)\n    return int(round(float(value) * factor))\n\n\n', new='def _time_entry_to_sec(words, value_index):\n    """Seconds of a [TIMES] entry (number with optional units word, or H:MM[:SS])"""\n    value = words[value_index]\n    if not _is_number(value):\n        return int(_str_time_to_sec(value))\n    unit = words[value_index + 1].upper() if len(words) > value_index + 1 else \'HOURS\'\n    if unit.startswith(\'SEC\'):\n        seconds = float(value)\n    elif unit.startswith(\'MIN\'):\n        seconds = float(value) * 60.0\n    elif unit.startswith(\'DAY\'):\n        seconds = float(value) * 86400.0\n    else:\n        seconds = float(value) * 3600.0\n    return int(round(seconds))\n\n\n', silent=True),
+    dict(name='rule-clock-time-without-colon-sent-to-float', file='wntr/network/controls.py', old="    def __init__(self, model, relation, threshold, repeat=True, first_day=0):\n        self._model = model\n        if isinstance(threshold, str) and not ':' in threshold and threshold.split()[-1].upper() not in ('AM', 'PM'):\n            self._threshold = float(threshold) * 3600.\n        else:\n            self._threshold = self._parse_value(threshold)\n", new="    def __init__(self, model, relation, threshold, repeat=True, first_day=0):\n        self._model = model\n        if isinstance(threshold, str) and not ':' in threshold:\n            self._threshold = float(threshold) * 3600.\n        else:\n            self._threshold = self._parse_value(threshold)\n", also=[("    def __init__(self, model, relation, threshold, repeat=False, first_time=0):\n        self._model = model\n        if isinstance(threshold, str) and not ':' in threshold and threshold.split()[-1].upper() not in ('AM', 'PM'):\n            self._threshold = float(threshold) * 3600.\n        else:\n            self._threshold = self._parse_value(threshold)\n", "    def __init__(self, model, relation, threshold, repeat=False, first_time=0):\n        self._model = model\n        if isinstance(threshold, str) and not ':' in threshold:\n            self._threshold = float(threshold) * 3600.\n        else:\n            self._threshold = self._parse_value(threshold)\n")], rule='R-C12-15'),
+    dict(name='silent-condition-threshold-as-conditional-expression', file='wntr/network/controls.py', old="    def __init__(self, model, relation, threshold, repeat=True, first_day=0):\n        self._model = model\n        if isinstance(threshold, str) and not ':' in threshold and threshold.split()[-1].upper() not in ('AM', 'PM'):\n            self._threshold = float(threshold) * 3600.\n        else:\n            self._threshold = self._parse_value(threshold)\n", new="    def __init__(self, model, relation, threshold, repeat=True, first_day=0):\n        self._model = model\n        decimal_hours = isinstance(threshold, str) and ':' not in threshold and threshold.split()[-1].upper() not in ('AM', 'PM')\n        self._threshold = float(threshold) * 3600. if decimal_hours else self._parse_value(threshold)\n", also=[("    def __init__(self, model, relation, threshold, repeat=False, first_time=0):\n        self._model = model\n        if isinstance(threshold, str) and not ':' in threshold and threshold.split()[-1].upper() not in ('AM', 'PM'):\n            self._threshold = float(threshold) * 3600.\n        else:\n            self._threshold = self._parse_value(threshold)\n", "    def __init__(self, model, relation, threshold, repeat=False, first_time=0):\n        self._model = model\n        decimal_hours = isinstance(threshold, str) and ':' not in threshold and threshold.split()[-1].upper() not in ('AM', 'PM')\n        self._threshold = float(threshold) * 3600. if decimal_hours else self._parse_value(threshold)\n")], silent=True),
+    dict(name='hydraulic-step-not-shortened-to-the-pattern-step', file='wntr/sim/core.py', old="        pattern_timestep = self._wn.options.time.pattern_timestep\n        if pattern_timestep is not None and 0 < pattern_timestep < self._hydraulic_timestep:\n            # as EPANET: no hydraulic step may skip a pattern period\n            msg = 'The pattern timestep is shorter than the hydraulic timestep. Reducing the hydraulic timestep from {0} seconds to {1} seconds for this simulation.'.format(self._hydraulic_timestep, pattern_timestep)\n            logger.warning(msg)\n            warnings.warn(msg)\n            self._hydraulic_timestep = pattern_timestep\n", new='', rule='R-C12-16'),
+    dict(name='silent-hydraulic-step-as-min-of-both', file='wntr/sim/core.py', old="        pattern_timestep = self._wn.options.time.pattern_timestep\n        if pattern_timestep is not None and 0 < pattern_timestep < self._hydraulic_timestep:\n            # as EPANET: no hydraulic step may skip a pattern period\n            msg = 'The pattern timestep is shorter than the hydraulic timestep. Reducing the hydraulic timestep from {0} seconds to {1} seconds for this simulation.'.format(self._hydraulic_timestep, pattern_timestep)\n            logger.warning(msg)\n            warnings.warn(msg)\n            self._hydraulic_timestep = pattern_timestep\n", new="        pattern_step = self._wn.options.time.pattern_timestep\n        if pattern_step is not None and pattern_step > 0:\n            shortest = min(self._hydraulic_timestep, pattern_step)\n            if shortest != self._hydraulic_timestep:\n                msg = 'The pattern timestep is shorter than the hydraulic timestep. Reducing the hydraulic timestep from {0} seconds to {1} seconds for this simulation.'.format(self._hydraulic_timestep, shortest)\n                logger.warning(msg)\n                warnings.warn(msg)\n            self._hydraulic_timestep = shortest\n", silent=True),
 ]
